@@ -39,6 +39,7 @@ type HarnessSpec struct {
 	Desc        string                      `json:"desc"`
 	Gates       map[string]string           `json:"gates"`
 	MaxPaths    int                         `json:"max_paths"`
+	MustReach   []string                    `json:"must_reach"` // Reach labels that have to be hit on a feasible path
 	TimeBudgetS int                         `json:"time_budget_s"`
 	NoMerge     bool                        `json:"no_merge"`
 	Merge       []string                    `json:"merge"`
@@ -1009,6 +1010,12 @@ func (r *runner) judge() int {
 		}
 		if res.Reached["end"] == 0 && !isTwin {
 			inconclusive(fmt.Sprintf("harness=%s vacuous: Reach(\"end\") was never executed on a feasible path", h.Func))
+		}
+		// coverage witnesses the spec insists on (situations an assertion is conditional on)
+		for _, l := range h.MustReach {
+			if res.Reached[l] == 0 && !isTwin {
+				inconclusive(fmt.Sprintf("harness=%s vacuous: required situation %q was never reached on a feasible path", h.Func, l))
+			}
 		}
 		labels := map[string]bool{}
 		for _, v := range res.Violations {
